@@ -28,5 +28,5 @@ PROP = dict(
     level_note="trusts the history checker, gcc TSan and /proc thread state for the lost-wake-up confirmation; schedules are sampled",
     required_counters={"all": ["win_submitted_before_first_run", "win_submission_overlapping_run_begin", "win_submitted_while_exiting",
                                "win_submitted_in_stopped_gap", "executed_in_destructor", "cancel_true", "cancel_true_same_batch_sibling", "cancel_of_self_while_running",
-                               "reruns", "runs_quiesced_all_executed", "deep_chain_scenarios", "deep_chain_links_left_over_by_the_first_bounded_drain", "scenarios_epoll", "scenarios_select"]},
+                               "reruns", "runs_quiesced_all_executed", "deep_chain_scenarios", "runs_with_descriptor_0_free_for_the_wakeup_fd", "deep_chain_links_left_over_by_the_first_bounded_drain", "scenarios_epoll", "scenarios_select"]},
 )
